@@ -798,4 +798,12 @@ B('NK-isna-nat-dropped', ['C14'], 'util.py', 'isna_array',
 N('NK-int-shortcut', ['C14', 'C15'], 'util.py', '_argminmax_2d',
   '    isna = isna_array(array)\n\n    isna_axis = isna.any(axis=axis)', '    if array.dtype.kind in DTYPE_INT_KINDS:\n        return ufunc(array, axis=axis)\n    isna = isna_array(array)\n\n    isna_axis = isna.any(axis=axis)')
 
+# ---------------------------------------------------------------------------------- relabel_shift (C20)
+B('RS-labels-ascending', ['C20'], 'frame.py', 'Frame.relabel_shift_out',
+  'new_labels = (label_src[i] for i in depth_level)', 'new_labels = tuple(label for i, label in enumerate(label_src) if i in depth_level)', 'E.pair[relabel-shift]', 'relabel_shift_out')
+B('RS-arrays-sorted-key', ['C20'], 'frame.py', 'Frame.relabel_shift_out',
+  'add_blocks = target_tb._extract(column_key=depth_level)', 'add_blocks = target_tb._extract(column_key=sorted(depth_level))', 'E.pair[relabel-shift]', 'relabel_shift_out')
+N('RS-labels-listcomp', ['C20'], 'frame.py', 'Frame.relabel_shift_out',
+  'new_labels = (label_src[i] for i in depth_level)', 'new_labels = [label_src[pos] for pos in depth_level]')
+
 VARIANTS = V
